@@ -39,6 +39,44 @@ class _Canon(ast.NodeTransformer):
         return node
 
 
+class _DictUpdate(ast.NodeTransformer):
+    """d.update({"k": v, ...}) / d.update(k=v, ...)  ->  d["k"] = v ; ...   for a local d that is known to be a dict in this function
+    (the **kwargs parameter, or a name assigned from a dict display / dict(...) call); literal string keys; same order."""
+
+    def __init__(self):
+        self.dicts = set()
+
+    def visit_FunctionDef(self, node):
+        saved = self.dicts
+        d = set()
+        if node.args.kwarg is not None:
+            d.add(node.args.kwarg.arg)
+        for n in ast.walk(node):
+            if isinstance(n, ast.Assign) and len(n.targets) == 1 and isinstance(n.targets[0], ast.Name):
+                v = n.value
+                if isinstance(v, (ast.Dict, ast.DictComp)) or (isinstance(v, ast.Call) and isinstance(v.func, ast.Name) and v.func.id == "dict"):
+                    d.add(n.targets[0].id)
+        self.dicts = saved | d
+        self.generic_visit(node)
+        self.dicts = saved
+        return node
+
+    def visit_Expr(self, node):
+        c = node.value
+        if (isinstance(c, ast.Call) and isinstance(c.func, ast.Attribute) and c.func.attr == "update" and isinstance(c.func.value, ast.Name) and c.func.value.id in self.dicts):
+            pairs = None
+            if len(c.args) == 1 and not c.keywords and isinstance(c.args[0], ast.Dict) and c.args[0].keys and all(isinstance(k, ast.Constant) and isinstance(k.value, str) for k in c.args[0].keys):
+                pairs = [(k.value, v) for k, v in zip(c.args[0].keys, c.args[0].values)]
+            elif not c.args and c.keywords and all(k.arg for k in c.keywords):
+                pairs = [(k.arg, k.value) for k in c.keywords]
+            if pairs:
+                d = c.func.value.id
+                # values must not read the dict being updated (update evaluates all values first)
+                if not any(isinstance(n, ast.Name) and n.id == d for _, v in pairs for n in ast.walk(v)):
+                    return [ast.copy_location(ast.Assign([ast.Subscript(ast.Name(d, ast.Load()), ast.Constant(k), ast.Store())], v), node) for k, v in pairs]
+        return node
+
+
 class _SelfDefault(ast.NodeTransformer):
     """x = A if c else x  ->  if c: x = A        x = x if c else A  ->  if not c: x = A"""
 
@@ -135,6 +173,7 @@ def canon_tree(tree):
     from .guided import NNF
 
     _Canon().visit(tree)
+    _DictUpdate().visit(tree)
     NNF().visit(tree)
     _Orient().visit(tree)
     _SelfDefault().visit(tree)
@@ -388,7 +427,7 @@ def drop_dead_new_locals(fn, known):
     return changed
 
 
-PURE_CALLS = {"np.cos", "np.sin", "np.sqrt", "np.abs", "np.asarray", "np.array", "np.atleast_1d", "np.atleast_2d", "len", "int", "float", "bool", "np.size",
+PURE_CALLS = {"min", "max", "abs", "slice", "np.cos", "np.sin", "np.sqrt", "np.abs", "np.asarray", "np.array", "np.atleast_1d", "np.atleast_2d", "len", "int", "float", "bool", "np.size",
               "np.shape", "np.ndim", "np.exp", "np.log", "np.prod", "np.sum", "np.max", "np.min", "np.any", "np.all", "np.isclose", "np.arange", "np.ones",
               "np.zeros", "np.empty", "np.logical_or", "np.logical_and", "np.logical_not", "np.isnan", "isinstance", "tuple", "list", "range", "np.power",
               "np.linalg.norm", "np.squeeze", "np.reshape", "np.where", "np.arccos", "np.arcsin", "np.tan", "np.arctan2", "sps.gamma", "sps.loggamma"}
@@ -447,17 +486,24 @@ def inline_new_helpers(tree, known_functions, rel):
     """Inline calls to NEW private helpers (module-level functions or methods of the same class)."""
     ft = function_table(tree)
     new = {q: f for q, f in ft.items() if q not in known_functions and ".<locals>." not in q and _simple_helper(f)}
-    if not new:
+    # NEW nested helpers (closures defined inside a known function): callable from their parent and from sibling closures
+    new_nested = {q: f for q, f in ft.items() if ".<locals>." in q and q not in known_functions and q.split(".<locals>.")[0] in known_functions
+                  and q.count(".<locals>.") == 1 and _simple_helper(f)}
+    if not new and not new_nested:
         return False
     changed = False
     counter = [0]
     for q, fn in list(ft.items()):
-        if q in new:
+        if q in new or q in new_nested:
             continue
         cls = q.split(".")[0] if "." in q and not q.startswith("<") else None
 
+        top = q.split(".<locals>.")[0]
+
         def resolve(call):
             f = call.func
+            if isinstance(f, ast.Name) and ("%s.<locals>.%s" % (top, f.id)) in new_nested and new_nested["%s.<locals>.%s" % (top, f.id)] is not fn:
+                return new_nested["%s.<locals>.%s" % (top, f.id)], False
             if isinstance(f, ast.Name) and f.id in new:
                 return new[f.id], False
             if isinstance(f, ast.Attribute) and isinstance(f.value, ast.Name) and f.value.id == "self" and cls is not None:
@@ -576,7 +622,7 @@ def inline_new_helpers(tree, known_functions, rel):
         fn.body = expand_block(fn.body) or [ast.Pass()]
     if changed:
         # a new helper all of whose call sites were inlined is dropped, so that per-function rules do not see its body twice
-        for q, h in new.items():
+        for q, h in list(new.items()) + list(new_nested.items()):
             nm = q.split(".")[-1]
             refs = sum(1 for n in ast.walk(tree) if (isinstance(n, ast.Attribute) and n.attr == nm) or (isinstance(n, ast.Name) and n.id == nm and isinstance(n.ctx, ast.Load)))
             inside = sum(1 for n in ast.walk(h) if (isinstance(n, ast.Attribute) and n.attr == nm) or (isinstance(n, ast.Name) and n.id == nm and isinstance(n.ctx, ast.Load)))
